@@ -451,7 +451,7 @@ func (m *Model) Begin(st Step, reached bool) {
 			if s.ClientGone {
 				continue
 			}
-			if splitAt(st, reached, PtUpdate) && st.Split.Target == i {
+			if splitAt(st, reached, PtUpdate, PtWFlush) && st.Split.Target == i {
 				m.deferredSub = i
 				continue
 			}
@@ -471,7 +471,7 @@ func (m *Model) Begin(st Step, reached bool) {
 		}
 		rcpt := append([]int(nil), p.Subs...)
 		sort.Ints(rcpt)
-		split := splitAt(st, reached, PtComplete, PtError)
+		split := splitAt(st, reached, PtComplete, PtError, PtWComplete, PtWError)
 		for _, i := range rcpt {
 			s := m.Subs[i]
 			if split && st.Split.Target == i {
@@ -671,10 +671,22 @@ func (m *Model) PredictReach(st Step) bool {
 		u.Split = nil
 		c.Begin(u, false)
 		return c.Periods[len(c.Periods)-1].Initialized
-	case PtComplete, PtError:
+	case PtComplete, PtError, PtWComplete, PtWError:
 		p := m.Periods[st.Period]
 		s := m.Subs[st.Split.Target]
 		return p.Live && s.Live && s.Period == p.Idx
+	case PtWFlush:
+		// parks inside the first Flush of the target's delivery; a filter error is written by the
+		// calling goroutine before the fan-out starts, which the executor's waiting does not model
+		p := m.Periods[st.Period]
+		s := m.Subs[st.Split.Target]
+		if !p.Live || !s.Live || s.Period != p.Idx || s.ClientGone || s.Filter == FBroken {
+			return false
+		}
+		if st.Op == OpUpdateSub && st.Sub != st.Split.Target {
+			return false
+		}
+		return len(Solo(s.Shape, s.Filter, EventPayload(st.N, st.K, st.Kind))) > 0
 	case PtUpdate:
 		p := m.Periods[st.Period]
 		s := m.Subs[st.Split.Target]
@@ -696,7 +708,14 @@ func (m *Model) PredictReach(st Step) bool {
 // HoldsUpdater reports whether a step parked at its window holds the updater mutex of its
 // trigger, so that every other updater call on the same trigger blocks until the resume.
 func HoldsUpdater(st Step) bool {
-	return st.Split != nil && (st.Split.Point == PtUpdate || st.Split.Point == PtComplete || st.Split.Point == PtError)
+	if st.Split == nil {
+		return false
+	}
+	switch st.Split.Point {
+	case PtUpdate, PtComplete, PtError, PtWFlush, PtWComplete, PtWError:
+		return true
+	}
+	return false
 }
 
 // IsUpdaterOp reports whether the step is a call on a trigger's updater.
@@ -708,9 +727,63 @@ func IsUpdaterOp(op string) bool {
 	return false
 }
 
-// Blocks reports whether nested, run while parent is parked, cannot finish before the resume.
-func Blocks(parent, nested Step) bool {
-	return HoldsUpdater(parent) && IsUpdaterOp(nested.Op) && nested.Period == parent.Period
+// Blocks reports whether nested, run while parent is parked, cannot finish before the resume:
+// an updater call on the trigger whose updater the parked call holds, or - when the parked call
+// sits inside a writer method, i.e. under the subscription's write lock - a removal of that
+// subscriber (it unregisters at once but signals completion only when the write lock is free).
+func (m *Model) Blocks(parent, nested Step) bool {
+	if !HoldsUpdater(parent) {
+		return false
+	}
+	if IsUpdaterOp(nested.Op) && nested.Period == parent.Period {
+		return true
+	}
+	return m.BlocksOnWriter(parent, nested)
+}
+
+// BlocksOnWriter is the second case of Blocks.
+func (m *Model) BlocksOnWriter(parent, nested Step) bool {
+	if parent.Split == nil || !IsWriterPoint(parent.Split.Point) {
+		return false
+	}
+	x := m.Subs[parent.Split.Target]
+	if !x.Live {
+		return false
+	}
+	switch nested.Op {
+	case OpUnsubscribe:
+		return nested.Sub == x.Idx && (x.Sync || !m.Shutdown)
+	case OpRemoveClient:
+		return !x.Sync && nested.Conn == x.Conn && !m.Shutdown
+	}
+	return false
+}
+
+// NestedAdmissible applies the executor's determinism rules to a nested step about to be run
+// while parent is parked (blockedSoFar: nested steps already waiting for the resume).
+func (m *Model) NestedAdmissible(parent, n Step, blockedSoFar int, writerBlockedBefore bool) bool {
+	if writerBlockedBefore {
+		return false // a removal waiting for the write lock has already unregistered: nothing may follow it
+	}
+	if m.Blocks(parent, n) && blockedSoFar >= 1 {
+		return false // two calls blocked on one mutex would be released in an unknown order
+	}
+	if n.Op == OpSubscribe && HoldsUpdater(parent) && n.Hook == HookEmit {
+		// the joiner's hook would call back into the held updater and block until the resume
+		if p := m.LivePeriod(n.Key); p != nil && p.Idx == parent.Period {
+			return false
+		}
+	}
+	if parent.Split != nil && IsWriterPoint(parent.Split.Point) {
+		// these would need the parked subscriber's write lock from a resolver goroutine
+		if n.Op == OpShutdown && !m.Shutdown {
+			return false
+		}
+		if n.Op == OpReleaseStart && n.Period == parent.Period {
+			return false
+		}
+	}
+	return true
 }
 
 // ApplyFull applies a whole top-level step (with its nested steps) in the order the executor
@@ -722,7 +795,7 @@ func (m *Model) ApplyFull(st Step) {
 	var blocked []Step
 	if st.Split != nil {
 		for _, n := range st.Split.Nested {
-			if reached && Blocks(st, n) {
+			if reached && m.Blocks(st, n) {
 				blocked = append(blocked, n)
 				continue
 			}
